@@ -504,6 +504,17 @@ def install(models, front=True):
             return VecV([shallow_copy(base[k]) for k in range(lo, hi)])
         if m == "as_slice" or m == "as_mut_slice":
             return a[0]
+        if m == "reverse":
+            base[lo:hi] = list(reversed(base[lo:hi])); return UNIT
+        if m == "swap":
+            i, j = ex.concretize(a[1], "index"), ex.concretize(a[2], "index")
+            if i >= n or j >= n: raise Panic("index out of bounds")
+            base[lo + i], base[lo + j] = base[lo + j], base[lo + i]; return UNIT
+        if m == "rotate_left" or m == "rotate_right":
+            k = ex.concretize(a[1], "mid")
+            if k > n: raise Panic("mid > len")
+            seg = base[lo:hi]
+            base[lo:hi] = (seg[k:] + seg[:k]) if m == "rotate_left" else (seg[n - k:] + seg[:n - k]); return UNIT
         if m == "concat" or m == "join":
             raise Unsupported("slice::" + m)
         if m == "binary_search_by_key":
@@ -517,6 +528,27 @@ def install(models, front=True):
         if i >= hi - lo:
             raise Panic(f"index out of bounds: the len is {hi - lo} but the index is {i}")
         return Ref(base, lo + i)
+
+    @R(r"^<std::(option|slice|vec)::(Iter|IterMut|IntoIter)<.*> as ExactSizeIterator>::len$")
+    def _exact_len(ex, c, a):
+        it = as_iter(ex, a[0])
+        n = 0
+        import copy as _copy
+        probe = _copy.copy(it)
+        while probe.next(ex) is not None:
+            n += 1
+            if n > 10000:
+                raise Unsupported("ExactSizeIterator::len of a long iterator")
+        return n
+
+    @R(r"^(core::)?slice::<impl \[.*\]>::reverse$|^Vec::<.*>::reverse$")
+    def _reverse(ex, c, a):
+        v = deref(a[0])
+        if isinstance(v, VecV):
+            v.items.reverse(); return UNIT
+        if hasattr(v, "items") and hasattr(v, "lo"):
+            v.items[v.lo:v.hi] = list(reversed(v.items[v.lo:v.hi])); return UNIT
+        raise Unsupported("reverse of " + repr(v)[:40])
 
     @R(r"^<std::ops::Range<usize> as ExactSizeIterator>::len$|^<Range<usize> as ExactSizeIterator>::len$")
     def _range_len(ex, c, a):
